@@ -14,6 +14,7 @@ def O(**kw):
 NONE, SET, MSET = O(), O(set=True), O(mset=True)
 MERGE, SETMERGE, MSETMERGE = O(merge=True), O(set=True, merge=True), O(mset=True, merge=True)
 KEYS = O(keys=["id"])
+SETKEYS = O(set=True, keys=["id"])     # v1: Setkeys alone leaves arrays lists; the keyed reading is SET + Setkeys
 KEYS2 = O(keys=["from", "to"])
 
 
@@ -209,6 +210,10 @@ def plan_v1(tier, seed, props):
                   item("mergedeep", o, f * 2, vd)]
         if not c18:
             items += [item("scalarr_4_3", o, f), item("keyed_2", o, f * 4)]
+    if not c18:
+        # the keyed reading of v1 (SET + Setkeys), on the families whose array members all carry the keys
+        items += [item("keyed_2", SETKEYS, 0.6 if q else 1.0), item("keyeddeep", SETKEYS, 1.0),
+                  item("keyed2k", O(set=True, keys=["from", "to"]), 0.3 if q else 1.0)]
     return items
 
 
